@@ -81,7 +81,13 @@ func genC17(r *rt.Rand, tier string, idx int) *world.Scenario {
 		case 3:
 			cl.Ops = append(cl.Ops, world.Op{K: "sleep", Ms: pauses[r.Intn(len(pauses))]})
 		case 4:
-			cl.Ops = append(cl.Ops, world.Op{K: "compact", Rev: world.Rev{M: "zero"}})
+			if r.Chance(0.3) {
+				// a compaction request naming a revision the node has not reached yet (a too large number, the
+				// header of a response not yet committed): its mark must not cover writes of the future
+				cl.Ops = append(cl.Ops, world.Op{K: "compact", Rev: world.Rev{M: "committed", N: int64(1 + r.Intn(3000))}})
+			} else {
+				cl.Ops = append(cl.Ops, world.Op{K: "compact", Rev: world.Rev{M: "zero"}})
+			}
 		case 5:
 			cl.Ops = append(cl.Ops, world.Op{K: "get", Key: k})
 			if r.Chance(0.4) {
